@@ -242,12 +242,32 @@ def _delj_lemma_unit(N):
         dx = env.array('dx', (N - 1,), lo=None)
         MI = env.array('M', (N - 1,))
         VI = env.array('V', (N - 1,))
-        if not env.symbolic:
-            env.holds('skip', True)
-            return
         for q in range(N - 1):
             env.assume(dx[q] > 0)
             env.assume(VI[q] > 0)
+        if not env.symbolic:
+            # float replay: the gcc-built compute_delj on these inputs against the same defining property
+            import math
+            cb = cmods.CBackend(cmods.build_clib())
+            for use in (1, 0):
+                out = np.zeros(N - 1)
+                cb.call('compute_delj', ['double*', 'double*', 'double*', 'int', 'double*', 'int'],
+                        [np.array(dx, dtype=float), np.array(MI, dtype=float), np.array(VI, dtype=float), N, out, use])
+                for q in range(N - 1):
+                    if not use:
+                        env.eq('off:%d' % q, out[q], 0.5)
+                        continue
+                    w = 2 * MI[q] * dx[q]
+                    if abs(w / VI[q]) > 200:
+                        continue        # exp overflows in floats: outside the real-number model
+                    e = math.exp(w / VI[q])
+                    if e != 1 and w != 0:
+                        lhs = MI[q] * out[q] + VI[q] / (2 * dx[q])
+                        rhs = e * (VI[q] / (2 * dx[q]) - MI[q] * (1 - out[q]))
+                        env.holds('equilibrium-flux:%d' % q, abs(lhs - rhs) <= 1e-7 * (abs(lhs) + abs(rhs) + 1e-300))
+                    else:
+                        env.eq('half:%d' % q, out[q], 0.5)
+            return
         ir = cmods.load_ir(files=['integration_shared.c'])
         eps = []
 
